@@ -425,7 +425,7 @@ def run(ctx):
                             stasks.append({"kernel": kname, "rho": rho, "perm": perm, "n": n, "N": N, "D": 1, "G": 4,
                                            "alpha": 0.8, "seed": ctx.seed, "order": order, "warm_alpha": 3.1})
     ctx.map("checks.c08", "smc_case", stasks, timeout=1500)
-    ptasks = [{"seed": ctx.seed, "shard": i, "count": 12 if ctx.tier == "quick" else 150} for i in range(16)]
+    ptasks = [{"seed": ctx.seed, "shard": i, "count": 12 if ctx.tier == "quick" else 600} for i in range(16)]
     ctx.map("checks.c08", "path_task", ptasks, timeout=1500)
     if ctx.counters.get("retained_path_weights_checked", 0) < 200:
         ctx.inconc("fewer than 200 retained-path weights checked")
